@@ -7,7 +7,7 @@
 #include <stdint.h>
 #include <inttypes.h>
 
-#define VP_MAXTOK 64
+#define VP_MAXTOK 512
 static char*  vp_line = NULL;
 static size_t vp_line_cap = 0;
 static char*  vp_tok[VP_MAXTOK];
